@@ -168,6 +168,14 @@ func cmdCheck(repo, prop, tier string) int {
 	var knownLines []string
 	seen := map[string]bool{}
 	os.MkdirAll(filepath.Join(verifRoot, "replays", prop), 0755)
+	var boundedList []map[string]interface{}
+	nBounded := 0
+	for _, o := range all {
+		if o.Bounded != "" {
+			nBounded++
+			boundedList = append(boundedList, map[string]interface{}{"obligation": o.ID, "bound": o.Bounded, "status": o.Status})
+		}
+	}
 	for _, o := range all {
 		seen[o.ID] = true
 		totSec += o.Seconds
@@ -176,6 +184,10 @@ func cmdCheck(repo, prop, tier string) int {
 		}
 		switch o.Status {
 		case "discharged":
+			if o.Bounded != "" {
+				bySolver["bounded(not counted as proved)"]++
+				break
+			}
 			discharged++
 			s := o.Solver
 			if s == "" {
@@ -264,7 +276,8 @@ func cmdCheck(repo, prop, tier string) int {
 	ev := map[string]interface{}{
 		"property_id": prop, "tier": tier, "seed": seed, "level": "proof",
 		"coverage": map[string]interface{}{
-			"obligations": len(all) + len(missing), "discharged": discharged,
+			"obligations": len(all) + len(missing) - nBounded, "discharged": discharged,
+			"bounded":     boundedList,
 			"checker_cmd": fmt.Sprintf("/verif/bin/rosvc check --property %s --tier %s", prop, tier),
 			"trusted_base": []string{"rosvc VC generator (/verif/engine)", "go/ssa x/tools v0.29.0", "z3 5.1.0 (z3-new), cvc5 1.0.3, z3 4.8.12",
 				"SQL-subset semantics (A-SQL)", "models of database/sql, sync, time, encoding/json, container/list (extern.go)"},
@@ -287,8 +300,8 @@ func cmdCheck(repo, prop, tier string) int {
 	if err := os.WriteFile(filepath.Join(verifRoot, "evidence", prop+".json"), data, 0644); err != nil {
 		return broken("evidence: %v", err)
 	}
-	fmt.Printf("property=%s tier=%s obligations=%d discharged=%d violations=%d paths=%d wall=%.1fs\n",
-		prop, tier, len(all)+len(missing), discharged, violations, totalPaths, time.Since(t0).Seconds())
+	fmt.Printf("property=%s tier=%s obligations=%d discharged=%d bounded=%d violations=%d paths=%d wall=%.1fs\n",
+		prop, tier, len(all)+len(missing)-nBounded, discharged, nBounded, violations, totalPaths, time.Since(t0).Seconds())
 	return exit
 }
 
